@@ -5,4 +5,4 @@ Require Extraction.
 Require Import ExtrOcamlBasic.
 From Verif Require Import Base.Sx Result.ResultModel Schema.Run.
 Extraction Language OCaml.
-Extraction "model.ml" run_c20 run_schema run_f64 run_simple run_helper run_h14 run_post run_visited run_rules run_walk.
+Extraction "model.ml" run_c20 run_schema run_f64 run_simple run_simple_frag run_helper run_h14 run_post run_visited run_rules run_walk.
